@@ -61,6 +61,20 @@ def rdev(rng, typ=None, **kw):
     return d
 
 
+GAPS = [0.001, 0.05, 0.099, 0.101, 0.5, 1.0, 2.5, 10.0, 59.0, 61.0, 301.0, 3601.0, 86401.0]
+
+
+def with_gaps(rng, dgrams, every=9):
+    """Quiet periods between datagrams (devices broadcast every few seconds; a bridge may run for days): nothing a bridge does
+    may depend on how long it has been since the last datagram."""
+    out = []
+    for n, d in enumerate(dgrams):
+        if n and n % every == 0:
+            out.append({"do": "wait", "s": GAPS[(n // every) % len(GAPS)] if rng.random() < 0.7 else rng.choice(GAPS)})
+        out.append(d)
+    return out
+
+
 def wrap(ports, dgrams, tail_stop=True):
     steps = [{"do": "start"}] + dgrams
     if tail_stop:
@@ -167,7 +181,7 @@ class C05(BridgeProp):
         for k in range(11, len(dg), 41):
             dg.insert(k, {"do": "dgram", "p": dg[k]["p"], "d": rdev(rng, name=cut_name(rng))})
         for n, k in enumerate(range(0, len(dg), 100)):
-            sc = wrap(PORTS, dg[k:k + 100])
+            sc = wrap(PORTS, with_gaps(rng, dg[k:k + 100]) if n % 2 == 0 else dg[k:k + 100])
             if n % 4 == 1:      # a bridge that was used before: started, stopped and started again ...
                 sc["steps"] = [{"do": "start"}, {"do": "stop"}, {"do": "cycle"}] + sc["steps"]
             elif n % 4 == 3:    # ... or left through the context manager once
@@ -305,7 +319,7 @@ class C07(BridgeProp):
                     d = rdev(rng, name=rng.choice([[0xFF, 0xFE, 0x41], cut_name(rng)]))     # undecodable name
                 prev = d
                 dg.append({"do": "dgram", "p": p, "d": d, "cbraise": rng.choice(["exc", "exc", "base", "cancelled"]) if rng.random() < 0.2 else False})
-            out.append(wrap(ports, dg))
+            out.append(wrap(ports, with_gaps(rng, dg, every=rng.choice([1, 2, 5])) if len(out) % 3 == 1 else dg))
         # bursts: several datagrams reach the sockets in the same loop iteration (also across ports), some callbacks raise,
         # some datagrams cannot be decoded; every delivery is attributed by the device id the harness put into the datagram
         for _ in range(ctx.pick(150, 3000)):
